@@ -150,7 +150,7 @@ retried; and only the three classified kinds are retried. -/
 theorem fatal_returned_not_retried :
     sendRPCDecision .fatal = .ret ∧
     (∀ k, sendRPCDecision k = .retry ↔ k ≠ .fatal) ∧
-    sendRPCArms.flatMap (·.types) = ["RetryableError", "ServerError", "NotServingRegionError"] ∧
+    sendRPCArms.flatMap (·.types) = ["RetryableError", "NotServingRegionError", "ServerError"] ∧
     (∀ a ∈ sendRPCArms, a.continues = true) ∧
     -- SendBatch: the `default` arm marks the call unretryable, the others queue it for retry
     (∀ a ∈ waitForCompletionArms, a.marks.contains "append:retryables" = !a.types.contains "default") ∧
